@@ -20,7 +20,7 @@ PROPS = {
         "assumptions": ["bit lengths above 130 are exercised by the oracle only (21850 bits, thorough)"],
     },
     "C04": {
-        "modules": ["PrioProofs.Props.C04", "PrioProofs.Props.C04Counting"],
+        "modules": ["PrioProofs.Props.C04", "PrioProofs.Props.C04Counting", "PrioProofs.Props.C04Robust"],
         "rule": "%sbit lengths {1,2,3,5,8} (thorough up to 33), levels first / middle / last, candidates = on-path prefix, its sibling and random strings; per level 12 public-share alterations (data value, authenticator, seed bit, control bit of the correction word at the first, queried and last level), 5-7 alterations of each input share, 6 round-one share elements, 3 message elements, both round-two shares, a cancelling pair; every step as a correspondence case; malicious clients: IDPF programmed by hand with data values 2, p-1, 0 and random at every level and an arbitrary authenticator, input shares with hand-made correlated randomness (all zero / random / zero A with random B), all prefixes of the level as candidates for levels < 3, two verification keys each; shares of length 0 and 2 and a round-two share against an empty one offered to the combiner; non-trivial = all;" % POP,
         "trusted": COMMON_TRUST + ["TurboSHAKE128 and the fixed-key AES PRG are parameters of the model"],
         "assumptions": ["the negligible-probability clause is not expressed; the oracle samples it with random keys"],
@@ -50,7 +50,7 @@ PROPS = {
         "assumptions": ["Average's final float division is outside the model (the integer sum and count are compared)"],
     },
     "C02": {
-        "modules": ["PrioProofs.Props.C02", "PrioProofs.Props.C02Tamper"],
+        "modules": ["PrioProofs.Props.C02", "PrioProofs.Props.C02Tamper", "PrioProofs.Props.C02Robust"],
         "rule": "Prio3 over a recording XOF (every XOF invocation's key and output is recorded and the model recomputes the whole step from that table): Count, Sum at bit-width edges (incl. a 34-bit bound), Histogram with dividing / non-dividing / oversize chunks, SumVec, MultihotCountVec, L1BoundSum x (aggregators, proofs) in {(2,1),(3,1),(5,2),(2,3)}; every message passes through its wire codec; alterations of every public-share seed, first/middle/last measurement and proof elements of the leader share, blinds, helper seeds, every aggregator's first/last verifier element and joint-randomness part, the verifier message, a missing and a duplicated share; model and code must agree on the step that fails; malicious clients: the real Prio3 client code over a wrapper type with identity encoding shards vectors outside the type's language -- every entry a random bit except one (at every position, or first/second/middle/last two) that is solved from the type's linear relation (Histogram: sum = 1; MultihotCountVec: weight = claimed weight; L1BoundSum: norm = claimed norm) so that the only defect is one non-bit entry, and pairs of non-bit entries -- for Count, Sum, SumVec, Histogram, MultihotCountVec and L1BoundSum with chunk lengths that divide the encoded length, leave exactly one element, leave one short, or exceed it; every such report must be refused; non-trivial = all;",
         "trusted": COMMON_TRUST + ["TurboSHAKE128 is a parameter of the model (recorded table in the correspondence)"],
         "assumptions": ["the negligible-probability clause (random-oracle collisions, FLP soundness error) is not expressed; the oracle samples it"],
